@@ -1,6 +1,6 @@
 (* Wire entry points of the C17 model (matrix-entry cache of the density estimation). *)
 From Coq Require Import ZArith List Bool QArith Qcanon.
-From SG Require Import Base.Sx Base.QcUtil Model.Gram Model.DECache.
+From SG Require Import Base.Sx Base.QcUtil Model.Gram Model.DECache Model.DEReuse.
 Import ListNotations.
 Open Scope Z_scope.
 
@@ -14,6 +14,49 @@ Definition get_grids (s : sx) : option (list (list (list Qc))) :=
 Definition of_cache (c : cache) : sx :=
   Lv (map (fun kv => Lv [of_LQc (fst (fst kv)); of_LQc (snd (fst kv)); of_Qc (snd kv)]) c).
 
+(* ---- wave 2: re-use of old right-hand sides, data bins, large-grid interpolation *)
+Definition get_nat (s : sx) : option nat := match s with Zv z => Some (Z.to_nat z) | _ => None end.
+Definition get_Lnat (s : sx) : option (list nat) := match s with Lv l => opt_all (map get_nat l) | _ => None end.
+Definition get_LLnat (s : sx) : option (list (list nat)) := match s with Lv l => opt_all (map get_Lnat l) | _ => None end.
+Definition of_nat (n : nat) : sx := Zv (Z.of_nat n).
+
+(* event: [] = post_processing ; [key stripes] = evaluation of a component grid *)
+Definition get_event (s : sx) : option event :=
+  match s with
+  | Lv [] => Some EPost
+  | Lv [k; st] => do k <- get_LZ k; do st <- get_LLQc st; Some (EGrid k st)
+  | _ => None
+  end.
+Definition get_events (s : sx) : option (list event) := match s with Lv l => opt_all (map get_event l) | _ => None end.
+
+Definition get_bin (s : sx) : option ((Qc * Qc) * (nat * nat)) :=
+  match s with
+  | Lv [lo; hi; a; b] => do lo <- get_Qc lo; do hi <- get_Qc hi; do a <- get_nat a; do b <- get_nat b; Some ((lo, hi), (a, b))
+  | _ => None
+  end.
+Definition get_bins (s : sx) : option (list binmap) :=
+  match s with
+  | Lv l => opt_all (map (fun bm => match bm with Lv e => opt_all (map get_bin e) | _ => None end) l)
+  | _ => None
+  end.
+Definition of_bins (bs : list binmap) : sx :=
+  Lv (map (fun bm => Lv (map (fun e => Lv [of_Qc (fst (fst e)); of_Qc (snd (fst e)); of_nat (fst (snd e)); of_nat (snd (snd e))]) bm)) bs).
+
+(* the history with, per evaluated grid, the old right-hand side that find_closest_old_B selects (or [] for none) *)
+Fixpoint run_reuse_log (thr : nat) (data : list (list Qc)) (signs : list Qc) (perms : list (list nat)) (st : bstate)
+  (evs : list event) : list sx * bstate :=
+  match evs with
+  | [] => ([], st)
+  | EGrid key stripes :: r =>
+      let chosen := if (thr <=? length (grid_hats stripes))%nat
+                    then match find_closest (oldB st) stripes with Some (k, _) => Lv [of_LZ k] | None => Lv [] end
+                    else Lv [] in
+      let '(b, st1) := calc_B thr data signs perms st key stripes in
+      let '(out, st2) := run_reuse_log thr data signs perms st1 r in
+      (Lv [of_LQc b; chosen] :: out, st2)
+  | EPost :: r => run_reuse_log thr data signs perms (post st) r
+  end.
+
 Definition entry_C17 (sub : Z) (a : sx) : sx :=
   match sub, a with
   (* history of grids built with one cache: (lambda grids) -> (matrices_with_cache matrices_without cache) *)
@@ -21,5 +64,20 @@ Definition entry_C17 (sub : Z) (a : sx) : sx :=
       do lam <- get_Qc lam; do grids <- get_grids grids;
       let '(Gs, c) := history_cached [] lam grids in
       Some (Lv [Lv (map of_LLQc Gs); Lv (map of_LLQc (history_plain lam grids)); of_cache c]))
+  (* history of right-hand sides on one object with re-use: (threshold data signs perms events) ->
+     ((b chosen_old_key)... , data bins, keys of old_B at the end) *)
+  | 1, Lv [thr; data; signs; perms; evs] => ret (
+      do thr <- get_nat thr; do data <- get_LLQc data; do signs <- get_LQc signs; do perms <- get_LLnat perms;
+      do evs <- get_events evs;
+      let '(out, st) := run_reuse_log thr data signs perms (bstate0 (length perms)) evs in
+      Some (Lv [Lv out; of_bins (bins st); Lv (map (fun e => of_LZ (fst e)) (oldB st))]))
+  (* verified checker for the data bins of a run: (data perms bins) -> (bins_cover perms_complete) *)
+  | 2, Lv [data; perms; bs] => ret (
+      do data <- get_LLQc data; do perms <- get_LLnat perms; do bs <- get_bins bs;
+      Some (Lv [sx_bool (check_bins data perms bs); sx_bool (check_perms data perms)]))
+  (* large-grid interpolation path with its per-call support cache: (stripes alphas points) -> values *)
+  | 3, Lv [stripes; al; pts] => ret (
+      do stripes <- get_LLQc stripes; do al <- get_LQc al; do pts <- get_LLQc pts;
+      Some (of_LQc (interp_large stripes al pts)))
   | _, _ => sx_err 0
   end.
